@@ -166,7 +166,14 @@ def cacheViolation (tol : Q) (n : Nat) (t : PT Q) : Option String :=
 def effectivenessViolation (n : Nat) (t : PT Q) : Option String :=
   (nodeInfos t true []).findSome? (fun nd =>
     if nd.isRoot then none
-    else if !nd.isLeaf && nd.nChildren == 1 then some s!"decision {nd.idx} below the root is left with a single branch"
+    else if !nd.isLeaf && nd.nChildren == 1 then
+      let childStates := ((t.find? nd.idx).map (fun s => s.kids.existing.map (fun c => showState c.2.val.state))).getD []
+      -- the one exception (`C06_no_single_branch`): both branches were judged empty — the first was removed, the last
+      -- one is kept (a decision never loses its last child) and is marked infeasible.  The two closed half-spaces cover
+      -- the parent's region, so this needs solver answers that contradict each other (the parent was not judged empty);
+      -- every `Infeasible` answer is checked against a margin separately (C10 clause of the history judge)
+      if childStates == ["X"] then none
+      else some s!"decision {nd.idx} (state {showState nd.state}) below the root is left with a single branch (state of the remaining child: {childStates})"
     else if emptyEvenGrown n nd.path then some s!"node {nd.idx} remains although its path region is empty (certified, margin 1e-6)"
     else none)
 
@@ -396,14 +403,15 @@ def judgeHist : P Verdict := do
     expect "|"
     let st ← tok
     let prop := opProperty op
-    if st == "panic" then
+    if st == "panic" || st == "panicS" then
+      let inSolver := if st == "panicS" then " [the panic is raised inside the external LP solver: minilp unwraps Err(SingularMatrix) in BasisSolver::reset]" else ""
       -- C04 / C11: a dimension-compatible operation must complete
       let (model, _) := modelStep tol n t op ⟨[], [], 0, tol⟩
       match model with
       | none => tag "expected-panic"; return (if inexact then .inexact "values" else .ok)
       | some _ =>
         -- in a distillation history (tag C01) the step is a step of the builder: the builder panics on this network
-        return .propfail s!"[{if nfaults > 0 then "C11" else if htag == "C01" then "C01" else "C04"}] step {step} ({opname}) panicked on dimension-compatible arguments{if htag == "C01" then " (a step of afftree_from_layers on a dimension-consistent network)" else ""}"
+        return .propfail s!"[{if nfaults > 0 then "C11" else if htag == "C01" then "C01" else "C04"}] step {step} ({opname}) panicked on dimension-compatible arguments{if htag == "C01" then " (a step of afftree_from_layers on a dimension-consistent network)" else ""}{inSolver}"
     let td' ← pTree
     let log ← pLog
     let trace ← pTrace
@@ -412,12 +420,24 @@ def judgeHist : P Verdict := do
     let evRef ← if refTag == "ref" then (do pure (some (← pEvals npts))) else pure none
     let idemTag ← tok
     let idem ← if idemTag == "idem" then (do let a ← pNat; let b ← pNat; let c ← pNat; pure (some (a, b, c))) else pure none
+    -- values after the same clean-up was run a second time (on a clone)
+    let evAgain ← if idemTag == "idem" then (do pure (some (← pEvals npts))) else pure none
     let baseTag ← tok
     let base ← if baseTag == "base" then (do pure (some (← pNat))) else pure none
     if !log.isEmpty then tag "lp"
     let some t' := td'.abs | return .propfail s!"[C12] step {step} ({opname}): resulting arena is not a consistent tree"
     if isPruning op && t'.size ≥ 3 then nontrivial := true
     -- ---- property oracles on the implementation's output ----
+    -- every `Infeasible` answer of the real solver is sound by a margin (hypothesis of the pruning theorems, C10);
+    -- checked first: a wrong `Infeasible` is the root cause of whatever the pruning does with it afterwards
+    for e in log do
+      if e.real == .infeasible then
+        if let some x := pointInShrunk e.poly.indim [e.poly] then
+          let mags := (e.poly.mat.flatMap id).filter (· != 0) |>.map absQ
+          let hi := mags.foldl max 0
+          let lo := mags.foldl min hi
+          let ill := lo > 0 && hi / lo ≥ (2 : Q) ^ 20
+          return .propfail s!"[C10] step {step} ({opname}): the solver reported Infeasible for a polytope containing {showVec x} with margin 1e-6{if ill then " (ill-scaled system: coefficient magnitudes differ by a factor ≥ 2^20)" else ""}"
     -- values at the sampled inputs against the specification of the step
     for (x, e) in pts.zip ev' do
       let want := specStep t op x
@@ -428,6 +448,18 @@ def judgeHist : P Verdict := do
         | .same => pure ()
         | .close => inexact := true
         | .different =>
+          -- an intermediate value within rounding distance of a breakpoint of the operand that is composed on top
+          -- (possible only with non-dyadic data: the hard-sigmoid slope): the rounded coefficients of the composed
+          -- tree may put the input on the other side; C01 / C02 exclude such inputs
+          let nearTie := match op with
+            | .compose _ g => match PT.eval t x with
+              | some y => PT.nearBreak g y
+              | none => false
+            | _ => false
+          if nearTie then
+            tag "near-breakpoint"
+            inexact := true
+          else
           let pid := if nfaults > 0 then "C11" else prop
           return .propfail s!"[{pid}] step {step} ({opname}): at input {showVec x} expected {showOptVec want} but the tree evaluates to {showOptVec got}"
     -- pruned composition against the implementation's own un-pruned composition
@@ -445,15 +477,16 @@ def judgeHist : P Verdict := do
     -- caches (C05)
     if let some msg := cacheViolation tol n t' then
       return .propfail s!"[{if nfaults > 0 then "C11" else "C05"}] step {step} ({opname}): {msg}"
-    -- every `Infeasible` answer of the real solver is sound by a margin (hypothesis of the pruning theorems, C10)
-    for e in log do
-      if e.real == .infeasible then
-        if let some x := pointInShrunk e.poly.indim [e.poly] then
-          let mags := (e.poly.mat.flatMap id).filter (· != 0) |>.map absQ
-          let hi := mags.foldl max 0
-          let lo := mags.foldl min hi
-          let ill := lo > 0 && hi / lo ≥ (2 : Q) ^ 20
-          return .propfail s!"[C10] step {step} ({opname}): the solver reported Infeasible for a polytope containing {showVec x} with margin 1e-6{if ill then " (ill-scaled system: coefficient magnitudes differ by a factor ≥ 2^20)" else ""}"
+    -- a second run of the clean-up (which trusts the caches the first one left) keeps the function
+    if let some ea := evAgain then
+      for (x, e) in pts.zip ea do
+        let want := specStep t op x
+        match e with
+        | .panic => return .propfail s!"[C04] step {step} ({opname}): evaluate panics at {showVec x} after the clean-up was run a second time"
+        | .val got =>
+          if evalCmp t' x want got == .different then
+            let pid := match op with | .reduce => "C08" | _ => "C03"
+            return .propfail s!"[{pid}] step {step} ({opname}): running the clean-up a second time changed the value at {showVec x}: expected {showOptVec want} but the tree evaluates to {showOptVec got}"
     -- effectiveness and idempotence of the clean-ups
     match op with
     | .elim =>
@@ -461,7 +494,13 @@ def judgeHist : P Verdict := do
         if let some msg := effectivenessViolation n t' then
           return .propfail s!"[C06] step {step} (elim): {msg}"
       if let some (same, lps, calls) := idem then
-        if !everFaulted && same != 1 then return .propfail s!"[C06] step {step}: a second infeasible_elimination changed the tree"
+        -- `same`: 1 identical, 2 identical up to cached states, 0 structure or maps differ.  A second run that only
+        -- decides a node the first run left undecided (the solver's point for it failed the containment test then, and
+        -- the shorter path after forwarding gives the solver a different vertex now) is a tolerance effect
+        if !everFaulted && same == 2 && (lps != 0 || calls != 0) then
+          tag "second-run-decides-more"
+          inexact := true
+        else if !everFaulted && same != 1 then return .propfail s!"[C06] step {step}: a second infeasible_elimination changed the tree"
         -- LPs solved by the second run change nothing observable; they show that some node stayed undecided
         -- (`Decisive` fails: the solver's point did not pass `contains` and could not be repaired)
         if !everFaulted && isTotal t && (lps != 0 || calls != 0) then tag "second-run-lps"
@@ -539,6 +578,8 @@ def judgeHist : P Verdict := do
     let bt ← tok
     if bt == "buildpanic" then
       return .propfail "[C01] afftree_from_layers panicked on a dimension-consistent network"
+    if bt == "buildpanicS" then
+      return .propfail "[C01] afftree_from_layers panicked on a dimension-consistent network [the panic is raised inside the external LP solver: minilp unwraps Err(SingularMatrix) in BasisSolver::reset]"
     let same ← pNat
     let evB ← pEvals npts
     let _ := dim
